@@ -10,7 +10,7 @@ ASSUMPTIONS = ['io_ratio in [2^-12, 2^12]', 'out is non-NULL unless in is NULL t
 def obligations(tier):
     obls = []
     if tier == 'quick':
-        pairs = [(i, (i * 3 + 1) % 8) for i in range(8)] + [(i, (i + 4) % 8) for i in range(8)]
+        pairs = [(i, (i * 3 + 1) % 8) for i in range(8)] + [(1, 5), (6, 2)]
     else:
         pairs = [(i, o) for i in range(8) for o in range(8)]
     for op in (0, 2):
